@@ -379,6 +379,11 @@ impl Printer {
             match self.theory {
                 Theory::Real => out.push_str(&format!("(declare-const v{} Real)\n", k)),
                 Theory::Fp => {
+                    if var_bound == Some(f32::INFINITY) {
+                        // the extended line: every float except NaN, +inf and -inf included
+                        out.push_str(&format!("(declare-const v{0} F)\n(assert (not (fp.isNaN v{0})))\n", k));
+                        continue;
+                    }
                     out.push_str(&format!(
                         "(declare-const v{0} F)\n(assert (not (or (fp.isNaN v{0}) (fp.isInfinite v{0}))))\n",
                         k
